@@ -128,6 +128,12 @@ def make_updater(spec, h, stats):
         while pending and pending[0]["t"] <= t:
             u = pending.pop(0)
             c = cons[u["name"]]
+            if u.get("look_first", True):
+                # the operator looks at the site through the interface, then edits (same period)
+                algo.interface.infrastructure_info()
+                algo.interface.get_constraints()
+                for sid_ in list(h.net.station_ids)[:2]:
+                    algo.interface.max_pilot_signal(sid_), algo.interface.evse_voltage(sid_)
             h.net.update_constraint(u["name"], Current(dict(c["coeffs"])), u["limit"])
             lim = list(stats["limits"])
             lim[names.index(u["name"])] = u["limit"]
